@@ -179,13 +179,13 @@ func (c *Ctx) ruleT4() {
 				if methodName(call) == "CanAppend" && c.isMethodOn(call, "CanAppend", ifaceLogAC) {
 					nCan++
 				}
-				// the access check may live in a helper called from here
-				if h := call.Common().StaticCallee(); h != nil && h.Blocks != nil && h.Pkg == f.Pkg {
-					eachCall(h, func(hc ssa.CallInstruction) {
-						if methodName(hc) == "CanAppend" && c.isMethodOn(hc, "CanAppend", ifaceLogAC) {
-							nCan++
-						}
-					})
+				// the access check may live in a helper called from here (a few levels down)
+				if h := call.Common().StaticCallee(); h != nil && h.Blocks != nil && h.Pkg == f.Pkg && h != f {
+					if c.reachesStatic(h, func(hc ssa.CallInstruction) bool {
+						return methodName(hc) == "CanAppend" && c.isMethodOn(hc, "CanAppend", ifaceLogAC)
+					}, 0) {
+						nCan++
+					}
 				}
 				if methodName(call) == "Load" && recvOf(call) != nil && strings.Contains(typeStr(recvOf(call).Type()), "eplicator") {
 					loads = append(loads, call)
@@ -883,12 +883,47 @@ func (c *Ctx) ruleB5() {
 			}
 		}
 		setCache := func(in ssa.Instruction) bool {
-			s, ok := in.(*ssa.Store)
-			if !ok || !d[s.Val] {
+			if s, ok := in.(*ssa.Store); ok {
+				if !d[s.Val] {
+					return false
+				}
+				fa, ok := s.Addr.(*ssa.FieldAddr)
+				return ok && fieldName(fa.X.Type(), fa.Field) == "Cache"
+			}
+			// a same-package helper given the cache that puts it into a Cache field on every path
+			call, ok := in.(*ssa.Call)
+			if !ok {
 				return false
 			}
-			fa, ok := s.Addr.(*ssa.FieldAddr)
-			return ok && fieldName(fa.X.Type(), fa.Field) == "Cache"
+			h := call.Call.StaticCallee()
+			if h == nil || h.Blocks == nil || h.Pkg != f.Pkg {
+				return false
+			}
+			for i, a := range call.Call.Args {
+				if !d[a] || i >= len(h.Params) {
+					continue
+				}
+				dp := derived([]ssa.Value{h.Params[i]}, flowOpts{})
+				sets := func(x ssa.Instruction) bool {
+					st, ok := x.(*ssa.Store)
+					if !ok || !dp[st.Val] {
+						return false
+					}
+					fa, ok := st.Addr.(*ssa.FieldAddr)
+					return ok && fieldName(fa.X.Type(), fa.Field) == "Cache"
+				}
+				has := false
+				eachInstr(h, func(x ssa.Instruction) {
+					if sets(x) {
+						has = true
+					}
+				})
+				anyRet := func(x ssa.Instruction) bool { _, ok := x.(*ssa.Return); return ok }
+				if hit, _ := findPath(h, entry, sets, anyRet, nil); has && hit == nil {
+					return true
+				}
+			}
+			return false
 		}
 		target := func(in ssa.Instruction) bool { return in == ssa.Instruction(ctorCall) }
 		if hit, tr := findPath(f, entry, setCache, target, nil); hit != nil {
